@@ -536,6 +536,12 @@ pub fn free_port() -> u16 {
         let port = (st.held[st.cur].1 + st.pos) as u16;
         st.pos += 1;
         if std::net::TcpListener::bind(("127.0.0.1", port)).is_ok() {
+            if std::env::var_os("VERIF_CHILD_STDERR").is_some() {
+                use std::io::Write;
+                if let Ok(mut f) = std::fs::OpenOptions::new().create(true).append(true).open("/tmp/verif-ports-alloc.log") {
+                    let _ = writeln!(f, "{:?} pid={} port={} block={} held={}", std::time::SystemTime::now().duration_since(std::time::UNIX_EPOCH).map(|d| d.as_millis()).unwrap_or(0), std::process::id(), port, st.held[st.cur].1, st.held.len());
+                }
+            }
             return port;
         }
         misses += 1;
@@ -651,6 +657,51 @@ pub struct App {
     pub addr: SocketAddr,
 }
 
+/// Does process `pid` itself hold a listening TCP socket on `port`? (Read from /proc: the listening
+/// socket's inode in /proc/net/tcp, and the process's descriptors.) "Something accepts connections on that port"
+/// is not the same thing: on a busy machine something else may, for a moment, and a child that is still starting
+/// would be taken for ready - its cases would all be refused and the stop signal would reach it before it listens
+/// for signals.
+pub fn listens(pid: u32, port: u16) -> bool {
+    // (any local address: a configuration may bind 127.0.0.1, 0.0.0.0 or [::])
+    let tables: String = ["/proc/net/tcp", "/proc/net/tcp6"].iter().filter_map(|p| std::fs::read_to_string(p).ok()).collect::<Vec<_>>().join("\n");
+    let want = format!(":{port:04X}");
+    let inodes: Vec<&str> = tables.lines().filter_map(|l| {
+        let f: Vec<&str> = l.split_whitespace().collect();
+        (f.len() > 9 && f[1].ends_with(&want) && f[3] == "0A").then(|| f[9])
+    }).collect();
+    if inodes.is_empty() {
+        return false;
+    }
+    let Ok(fds) = std::fs::read_dir(format!("/proc/{pid}/fd")) else { return false };
+    for fd in fds.flatten() {
+        if let Ok(t) = std::fs::read_link(fd.path()) {
+            let t = t.to_string_lossy();
+            if inodes.iter().any(|i| t == format!("socket:[{i}]")) {
+                return true;
+            }
+        }
+    }
+    false
+}
+
+/// waits until the child listens on the port itself (true) or has exited / 8 s have passed (false)
+pub fn wait_until_listening(child: &mut std::process::Child, port: u16) -> bool {
+    for _ in 0..800 {
+        if listens(child.id(), port) {
+            // (one round trip through the accept loop is not needed for correctness; a moment for the runtime to
+            // install its signal handling is)
+            std::thread::sleep(Duration::from_millis(30));
+            return matches!(child.try_wait(), Ok(None));
+        }
+        if !matches!(child.try_wait(), Ok(None)) {
+            return false;
+        }
+        std::thread::sleep(Duration::from_millis(10));
+    }
+    false
+}
+
 /// `proxy` is off | v1 | v2 | v1v2; `limit` 0 = no rate limiter (window one hour otherwise)
 pub fn spawn_app(max_packet_length: u64, expiry: u64, timeout: u64, proxy: &str, limit: usize) -> App {
     spawn_app_with(max_packet_length, expiry, timeout, proxy, limit, &[])
@@ -658,26 +709,26 @@ pub fn spawn_app(max_packet_length: u64, expiry: u64, timeout: u64, proxy: &str,
 
 /// `extra`: further arguments understood by the child (`bigstatus`)
 pub fn spawn_app_with(max_packet_length: u64, expiry: u64, timeout: u64, proxy: &str, limit: usize, extra: &[&str]) -> App {
-    let port = free_port();
-    let exe = common::self_exe();
-    let child = std::process::Command::new(exe)
-        .args(["C14-child", &port.to_string(), &max_packet_length.to_string(), &expiry.to_string(), &timeout.to_string(), if proxy.is_empty() { "off" } else { proxy }, &limit.to_string()])
-        .args(extra)
-        .stdout(std::process::Stdio::null())
-        .stderr(if std::env::var_os("VERIF_CHILD_STDERR").is_some() { std::process::Stdio::inherit() } else { std::process::Stdio::null() })
-        .spawn()
-        .expect("spawn child");
-    let addr: SocketAddr = format!("127.0.0.1:{port}").parse().unwrap();
-    for _ in 0..600 {
-        // probe from an address no check uses, so that no rate-limit budget of a checked address is spent
-        let ok = std::net::TcpStream::connect_timeout(&addr, Duration::from_millis(200)).is_ok();
-        if ok {
-            std::thread::sleep(Duration::from_millis(20));
+    // (a port whose listener turns out not to be this child's - the child has exited although something answers
+    // there - is given up and another one is tried: who else may use a loopback port is not in the harness's hands)
+    for _attempt in 0..4 {
+        let port = free_port();
+        let exe = common::self_exe();
+        let mut child = std::process::Command::new(exe)
+            .args(["C14-child", &port.to_string(), &max_packet_length.to_string(), &expiry.to_string(), &timeout.to_string(), if proxy.is_empty() { "off" } else { proxy }, &limit.to_string()])
+            .args(extra)
+            .stdout(std::process::Stdio::null())
+            .stderr(if std::env::var_os("VERIF_CHILD_STDERR").is_some() { std::process::Stdio::inherit() } else { std::process::Stdio::null() })
+            .spawn()
+            .expect("spawn child");
+        let addr: SocketAddr = format!("127.0.0.1:{port}").parse().unwrap();
+        if wait_until_listening(&mut child, port) {
             return App { child, addr };
         }
-        std::thread::sleep(Duration::from_millis(10));
+        let _ = child.kill();
+        let _ = child.wait();
     }
-    common::machinery("passage::start did not start listening within 6 s")
+    common::machinery("passage::start did not start listening (four attempts on four ports)")
 }
 
 /// stops the application the way an operator does (ctrl-c) and returns its exit status
@@ -697,6 +748,20 @@ pub fn stop_app(mut app: App) -> Option<i32> {
         if t0.elapsed() > Duration::from_secs(8) {
             if std::env::var_os("VERIF_CHILD_STDERR").is_some() {
                 eprintln!("child {} (pid {}) still running 8 s after SIGINT; its threads:", app.addr, app.child.id());
+                if let Ok(o) = std::process::Command::new("ss").args(["-tanpi"]).output() {
+                    for l in String::from_utf8_lossy(&o.stdout).lines().filter(|l| l.contains(&format!(":{} ", app.addr.port())) || l.contains(&format!("pid={},", app.child.id()))) {
+                        eprintln!("    ss: {l}");
+                    }
+                }
+                if let Ok(o) = std::process::Command::new("ls").args(["-l", &format!("/proc/{}/fd", app.child.id())]).output() {
+                    eprintln!("{}", String::from_utf8_lossy(&o.stdout));
+                }
+                if let Ok(o) = std::process::Command::new("cat").arg(format!("/proc/{}/net/tcp", app.child.id())).output() {
+                    let hexport = format!(":{:04X} ", app.addr.port());
+                    for l in String::from_utf8_lossy(&o.stdout).lines().filter(|l| l.contains(&hexport)) {
+                        eprintln!("    tcp: {l}");
+                    }
+                }
                 if let Ok(o) = std::process::Command::new("gdb").args(["-p", &app.child.id().to_string(), "-batch", "-ex", "thread apply all bt 12"]).output() {
                     eprintln!("{}", String::from_utf8_lossy(&o.stdout));
                 }
